@@ -151,6 +151,24 @@ def same_state(backend, a, b, n):
     return None
 
 
+def same_state_many(a, b, n):
+    """stabilizer results on many qubits (no state vectors): both tableaux valid and every signed stabilizer row of the second
+    is an element of the first one's stabilizer group (refsem.tabref, Aaronson-Gottesman decomposition through the destabilizers)"""
+    from refsem import tabref as T
+
+    (ta, pa, ia), (tb, pb, ib) = a, b
+    if ta.shape != tb.shape:
+        return f"tableau shapes {ta.shape} vs {tb.shape}"
+    if not (T.valid_clifford(ta, n) and T.valid_clifford(tb, n)):
+        return "a result is not a valid Clifford tableau"
+    if np.any(ia[n:] % 4 != 0) or np.any(ib[n:] % 4 != 0):
+        return "a stabilizer row of a result carries a factor i (not Hermitian)"
+    bad = T.RefTableau.from_arrays(ta, pa).same_state_as_rows(tb[n:], pb[n:])
+    if bad is not None:
+        return f"stabilizer row {bad} (x|z|r)={tb[n + bad].tolist()}|{int(pb[n + bad])} of the second result is not in the stabilizer group of the first result"
+    return None
+
+
 def forced_modes(inp, backend):
     """forced settings under which two compilations of equivalent circuits must give the same state: the result must not
     depend on the linearisation (node ids change under rewrites)"""
@@ -242,7 +260,7 @@ def rewrite_case(inp):
         c.validate()
     if inp.get("demand_return"):
         return None
-    for backend in ("stabilizer", "dm"):
+    for backend in inp.get("backends", ("stabilizer", "dm")):
         for mode in forced_modes(inp, backend):
             ref, _ = build_circuit(spec)
             a = snapshot(compile_plain(ref, backend, mode).rep_data)
@@ -252,7 +270,7 @@ def rewrite_case(inp):
                 if raised is None:
                     raise
                 return f"[{backend} mode={mode}] {raised} and left a circuit that no longer compiles ({type(e).__name__}: {e})"
-            m = same_state(backend, a, b, n)
+            m = same_state(backend, a, b, n) if n <= 8 else same_state_many(a, b, n)
             if m:
                 return f"[{backend} mode={mode}] after {seqn}{' (' + raised + ')' if raised else ''}: " + m
     return None
@@ -277,6 +295,11 @@ for _r in REWRITES:
 for _r in ("unwrap_nodes", "group_one_qubit_gates", "remove_identity"):
     S.item(f"{_r}.returns_normally", _RW_SITE[_r], _RW_BOUND.replace("; both backends, modes 0 and 1", ""),
            clause=f"{_r.replace('_', ' ')} is a rewrite of every circuit: it returns normally and keeps the per-register operation sequence")(returns_case)
+S.item("rewrites.many_registers", "graphiq.circuit.circuit_dag:CircuitDAG (copy, unwrap_nodes, group_one_qubit_gates, remove_identity, assign_noise)",
+       "{N} seeded random programs of <=28 ops on 11..12 photon registers + 1..3 emitters (every 4th: 11 emitters + 1..2 photons), registers number 1, 10 and the highest "
+       "one always used (1 and 10 in common two-qubit gates) x each of the 5 rewrites and the sequence [copy, unwrap_nodes, remove_identity, group_one_qubit_gates]; stabilizer backend, modes 0 and 1; "
+       "results compared by group membership of the signed rows (refsem.tabref)",
+       clause="rewrites do not change the state the circuit compiles to - register numbers with two digits")(rewrite_case)
 S.item("rewrites.sequences_le3", "graphiq.circuit.circuit_dag:CircuitDAG (copy, unwrap_nodes, remove_identity, assign_noise)",
        "all 80 sequences of 2 or 3 of the rewrites copy / unwrap_nodes / remove_identity / assign_noise(empty) x {M} seeded random programs of <=12 ops on <=4 qubits (each sequence on its own sample); both backends, modes 0 and 1",
        clause="rewrites do not change the compiled state - all interleavings of <= 3 of the listed calls")(rewrite_case)
@@ -339,6 +362,214 @@ def repeat_case(inp):
                 m = same_state(backend, a, x, n)
                 if m:
                     return f"[{backend} mode={mode}] {nm_}: " + m
+    return None
+
+
+# ------------------------------------------------------------------ repeated use: one compiler instance, several circuits; noisy circuit on alternating backends
+@S.item("compile.repeat_deterministic.other_circuits_in_between", site="graphiq.backends.compiler_base:CompilerBase.compile",
+        bound="{N} seeded random programs A (<=20 ops, <=5 qubits) + the 14 signature programs of the register configurations with 1..4 qubits; ONE "
+              "compiler instance per backend compiles A, then B1 (same total, every other emitter/photon split in turn), then B2 (another "
+              "size), then A again; modes 0 and 1; the last result equals the first and the result of a fresh instance, and every in-between "
+              "result equals the result of a fresh instance for that circuit",
+        clause="repeating a deterministic compile returns the same state (also when the compiler object compiled other circuits in between)")
+def repeat_interleaved_case(inp):
+    from bounded.C01 import signature_program
+
+    spec = inp["prog"]
+    n = RC.n_qubits(spec)
+    others = [signature_program(ne, n - ne) for ne in range(n + 1) if ne != spec["ne"]] + [inp["other"]]
+    for backend in ("stabilizer", "dm"):
+        for mode in (0, 1):
+            c, _ = build_circuit(spec)
+            comp = COMPILERS[backend]()
+            comp.measurement_determinism = mode
+            a = snapshot(comp.compile(c).rep_data)
+            for o in others:
+                oc, _ = build_circuit(o)
+                x = snapshot(comp.compile(oc).rep_data)
+                if RC.forced_order_independent(o):
+                    y = snapshot(compile_plain(oc, backend, mode).rep_data)
+                    m = same_state(backend, y, x, RC.n_qubits(o))
+                    if m:
+                        return (f"[{backend} mode={mode}] circuit ({o['ne']}e,{o['np']}p) compiled by an instance that compiled ({spec['ne']}e,{spec['np']}p) "
+                                f"and {[(q['ne'], q['np']) for q in others[:others.index(o)]]} before differs from its compilation by a fresh instance: " + m)
+            b = snapshot(comp.compile(c).rep_data)
+            c2, _ = build_circuit(spec)
+            e = snapshot(comp.compile(c2).rep_data)
+            f = snapshot(compile_plain(c, backend, mode).rep_data)
+            for nm_, x in (("same circuit object again after the instance compiled other circuits", b), ("a fresh build of the program on the used instance", e),
+                           ("compile with a fresh compiler", f)):
+                m = same_state(backend, a, x, n)
+                if m:
+                    return f"[{backend} mode={mode}] {nm_} ({[(o['ne'], o['np']) for o in others]}): " + m
+    return None
+
+
+def light_map():
+    """few noisy gate kinds, so that the stabilizer mixture of a short circuit stays small"""
+    d1 = nm.DepolarizingNoise(0.1)
+    d2 = nm.DepolarizingNoise(0.05)
+    d2.noise_parameters["After gate"] = False
+    px = nm.PauliError("X")
+    one = {"Hadamard": d1, "Phase": d2, "SigmaX": px, "SigmaZ": nm.PhotonLoss(0.25)}
+    # both split placements: CNOT control after / target before, CZ control before / target after
+    two = {"CNOT": [nm.DepolarizingNoise(0.2), d2], "CZ": [d2, nm.DepolarizingNoise(0.15)]}
+    return {"e": dict(one), "p": dict(one), "ee": dict(two), "ep": dict(two), "pe": dict(two), "pp": dict(two)}
+
+
+def map_dump(m):
+    return [[k, name, [[id(x), type(x).__name__, repr(sorted(x.noise_parameters.items(), key=str))] for x in (v if isinstance(v, list) else [v])]]
+            for k, d in sorted(m.items()) for name, v in sorted(d.items())]
+
+
+def noisy_matrix(q, n):
+    """density matrix of a compiled QuantumState of either backend (stabilizer mixture: sum_i p_i |t_i><t_i| with the vectors
+    built from the signed stabilizer rows by refsem)"""
+    rep = q.rep_data
+    d = rep.data
+    if isinstance(d, np.ndarray):
+        return np.array(d, dtype=complex)
+    branches = d if isinstance(d, list) else [(1.0, d)]
+    rho = np.zeros((2**n, 2**n), dtype=complex)
+    for p, t in branches:
+        tab, ph = np.array(t.table), np.array(t.phase)
+        v = R.stabilizer_state(tab[n:, :n], tab[n:, n:], ph[n:])
+        if v is None:
+            raise AssertionError("a branch of the stabilizer mixture is not a stabilizer state")
+        rho += p * np.outer(v, v.conj())
+    return rho
+
+
+@S.item("compile.noisy_circuit.alternating_backends", site="graphiq.backends.compiler_base:CompilerBase.compile, _apply_additional_noise",
+        bound="{N} seeded random unitary-or-measuring programs of <=6 ops on <=3 qubits + all 1-op programs on (1e,1p), each turned into a noisy "
+              "circuit by assign_noise (depolarizing before/after, Pauli error, photon loss, control-after/target-before on CNOT and control-before/target-after on CZ); the SAME "
+              "noisy circuit object is compiled dm, stabilizer, dm, stabilizer, dm (noise simulation on, forced outcome 1, one compiler "
+              "instance per backend); after every compilation the circuit dump and the noise map are unchanged; the three dm results are "
+              "equal and the two stabilizer-mixture results are equal (as matrices)",
+        clause="compiling a circuit never changes the behaviour of the circuit, so repeating a deterministic compile returns the same state "
+               "(noisy circuit, both backends in turn); the noise models are not changed")
+def noisy_alternating_case(inp):
+    spec = inp["prog"]
+    n = RC.n_qubits(spec)
+    base, _ = build_circuit(spec)
+    mp = light_map()
+    md = map_dump(mp)
+    c = base.assign_noise(mp)
+    before = circuit_dump(c)
+    comps = {"dm": DensityMatrixCompiler(), "stabilizer": StabilizerCompiler()}
+    first = {}
+    for k, backend in enumerate(("dm", "stabilizer", "dm", "stabilizer", "dm")):
+        comp = comps[backend]
+        comp.measurement_determinism = 1
+        comp.noise_simulation = True
+        exc = None
+        try:
+            with contextlib.redirect_stdout(io.StringIO()):
+                st = comp.compile(c)
+        except Exception as e:  # noqa: BLE001 - whether the noisy simulation itself works is C06's subject; the frame still applies
+            exc = f"{type(e).__name__}: {e}"
+        d = first_diff(before, circuit_dump(c))
+        if d:
+            return f"compilation #{k} ({backend}{', raised ' + exc if exc else ''}) changed the noisy circuit: {d}"
+        if map_dump(mp) != md:
+            return f"compilation #{k} ({backend}) changed the noise map: {md} -> {map_dump(mp)}"
+        if exc is not None:
+            if backend in first and first[backend] is not None:
+                return f"compilation #{k} ({backend}) raised {exc} although the first {backend} compilation of the same object returned"
+            first[backend] = None
+            continue
+        rho = noisy_matrix(st, n)
+        if backend not in first:
+            first[backend] = rho
+        elif first[backend] is None:
+            return f"compilation #{k} ({backend}) returned although the first {backend} compilation of the same object raised"
+        elif rho.shape != first[backend].shape or not np.allclose(rho, first[backend], atol=1e-9):
+            return (f"compilation #{k} ({backend}) of the same noisy circuit object differs from the first {backend} compilation "
+                    f"(max dev {np.max(np.abs(rho - first[backend])):.3e})")
+    return None
+
+
+@S.item("assign_noise.twice.frame", site="graphiq.circuit.circuit_dag:CircuitDAG.assign_noise, _noisy_gates",
+        bound="every 6th of the programs of <=2 ops on the configurations with <=2 qubits + {N} seeded random programs of <=30 ops on <=5 qubits; calls: "
+              "n1 = c.assign_noise(map), n2 = c.assign_noise(map) (same map object), n3 = n1.assign_noise(map), n4 = c.assign_noise(empty)",
+        clause="deriving a noisy copy never changes the original, the earlier noisy copies or the noise map; every call returns a new circuit")
+def assign_twice_case(inp):
+    spec = inp["prog"]
+    n = RC.n_qubits(spec)
+    c, _ = build_circuit(spec)
+    d0 = circuit_dump(c)
+    beh = noise_free_behaviour(c, n)
+    mp = depol_map()
+    md = map_dump(mp)
+    n1 = c.assign_noise(mp)
+    d1 = circuit_dump(n1)
+    n2 = c.assign_noise(mp)
+    n3 = n1.assign_noise(mp)
+    n4 = c.assign_noise({k: dict(v) for k, v in EMPTY_MAP.items()})
+    objs = [c, n1, n2, n3, n4]
+    if len({id(x) for x in objs}) != 5:
+        return "two assign_noise calls returned the same circuit object"
+    d = first_diff(d0, circuit_dump(c))
+    if d:
+        return f"the original changed after repeated assign_noise: {d}"
+    d = first_diff(d1, circuit_dump(n1))
+    if d:
+        return f"the first noisy copy changed when further noisy copies were derived: {d}"
+    if map_dump(mp) != md:
+        return f"assign_noise changed the noise map: {md} -> {map_dump(mp)}"
+    # the second derivation carries the same noise values as the first (op ids differ, so compare without them)
+    strip = lambda dump: [[x[0], x[2]] for x in dump["nodes"]]  # noqa: E731
+    if strip(circuit_dump(n2)) != strip(d1):
+        return "the second assign_noise(map) on the same original gives a different noisy circuit than the first"
+    m = same_state("dm", beh, noise_free_behaviour(c, n), n)
+    if m:
+        return f"after repeated assign_noise the original no longer compiles to the noise-free state (noise simulation on): {m}"
+    for o in n4.sequence():
+        flat = o.noise if isinstance(o.noise, list) else [o.noise]
+        if not all(isinstance(x, nm.NoNoise) for x in flat):
+            return f"assign_noise(empty) after assign_noise(map) attached {noise_dump(o.noise)} to {type(o).__name__}"
+    return None
+
+
+@S.item("copy.independent_of_later_edits", site="graphiq.circuit.circuit_base:CircuitBase.copy ; graphiq.circuit.circuit_dag:CircuitDAG.add, remove_op",
+        bound="{N} seeded random programs of <=20 ops on <=4 qubits: the circuit is compiled (both backends) and its depth queried, then copied; "
+              "1-3 operations are add()ed to the copy and one of its one-qubit nodes is removed; then an operation is added to the original",
+        clause="copying a circuit does not change the state it compiles to; neither object changes when the other one is edited later")
+def copy_edit_case(inp):
+    from bounded.C01 import make_op
+
+    spec, ext = inp["prog"], inp["ext"]
+    n = RC.n_qubits(spec)
+    c, _ = build_circuit(spec)
+    for backend in ("stabilizer", "dm"):
+        compile_plain(c, backend, 1)
+    c.depth
+    c.register_depth
+    d0 = circuit_dump(c)
+    cc = c.copy()
+    for op in ext:
+        cc.add(make_op(op))
+    d = first_diff(d0, circuit_dump(c))
+    if d:
+        return f"adding {ext} to the copy changed the original: {d}"
+    ref, _ = build_circuit(dict(spec, ops=list(spec["ops"]) + list(ext)))
+    for backend in ("stabilizer", "dm"):
+        for mode in forced_modes({"prog": dict(spec, ops=list(spec["ops"]) + list(ext))}, backend):
+            m = same_state(backend, snapshot(compile_plain(ref, backend, mode).rep_data), snapshot(compile_plain(cc, backend, mode).rep_data), n)
+            if m:
+                return f"[{backend} mode={mode}] copy + add({ext}) compiles differently from the program built directly: {m}"
+    one = [nd for nd in cc.dag.nodes if isinstance(cc.dag.nodes[nd]["op"], gops.OneQubitOperationBase) and not isinstance(cc.dag.nodes[nd]["op"], gops.MeasurementZ)]
+    if one:
+        cc.remove_op(one[inp["pick"] % len(one)])
+        cc.validate()
+        d = first_diff(d0, circuit_dump(c))
+        if d:
+            return f"removing a node of the copy changed the original: {d}"
+    dc = circuit_dump(cc)
+    c.add(gops.Hadamard(register=0, reg_type="e" if spec["ne"] else "p"))
+    d = first_diff(dc, circuit_dump(cc))
+    if d:
+        return f"adding an operation to the original changed the copy: {d}"
     return None
 
 
@@ -652,6 +883,18 @@ def run(tier, seed):
         S.items[nm_].bound = S.items[nm_].bound.replace("{M}", str(M))
         S.map(nm_, [x for x in sin if ("group_one_qubit_gates" in x["rewrites"]) == sel], nontrivial=nt)
 
+    from bounded.C01 import domain_many
+
+    many, Nmany = domain_many(tier, seed + 77)
+    many = many[: max(8, len(many) // 2)]
+    for x in many:
+        x["prog"]["nc"] = 1
+        ops_ = [op[:-1] + [0] if op[0] in RC.MEASURING else op for op in x["prog"]["ops"]]
+        x["prog"]["ops"] = ops_ if len(ops_) <= 28 else ops_[:24] + ops_[-4:]
+    S.items["rewrites.many_registers"].bound = S.items["rewrites.many_registers"].bound.replace("{N}", str(len(many)))
+    S.map("rewrites.many_registers", [{"prog": x["prog"], "rewrites": rw, "backends": ["stabilizer"]} for x in many
+                                       for rw in [[r] for r in REWRITES] + [["copy", "unwrap_nodes", "remove_identity", "group_one_qubit_gates"]]], nontrivial=nt)
+
     two = [b for b in base if RC.n_qubits(b["prog"]) <= 2 or len(b["prog"]["ops"]) > 2]
     for nm_ in ("compile.frame", "compile.frame_noisy_circuit", "compile.repeat_deterministic", "assign_noise.frame"):
         S.items[nm_].bound = S.items[nm_].bound.replace("{N}", str(N))
@@ -659,6 +902,34 @@ def run(tier, seed):
     S.map("compile.frame_noisy_circuit", [dict(b, noisy=True) for b in base if len(b["prog"]["ops"]) > 2], nontrivial=nt)
     S.map("compile.repeat_deterministic", two, nontrivial=nt)
     S.map("assign_noise.frame", two, nontrivial=nt)
+
+    from bounded.C01 import random_program_on, signature_program, CONFIGS14
+
+    rrng = np.random.default_rng(seed + 1310)
+    Nr = 300 if th else 60
+    rep = [signature_program(*cfg) for cfg in CONFIGS14] + random_programs(seed + 1311, Nr, max_qubits=5, max_len=20)
+    rin = []
+    for p in rep:
+        n2 = int(rrng.integers(1, 6))
+        ne2 = int(rrng.integers(0, n2 + 1))
+        rin.append({"prog": p, "other": random_program_on(rrng, ne2, n2 - ne2, 12)})
+    S.items["compile.repeat_deterministic.other_circuits_in_between"].bound = S.items["compile.repeat_deterministic.other_circuits_in_between"].bound.replace("{N}", str(Nr))
+    S.map("compile.repeat_deterministic.other_circuits_in_between", rin, nontrivial=nt)
+
+    Na = 400 if th else 100
+    alt = [p for p in RC.enumerate_programs(1, [RC.WORDS24[5], RC.WORDS24[10]], [], configs=[(1, 1)]) if len(p["ops"]) == 1]
+    alt += random_programs(seed + 1312, Na, max_qubits=3, max_len=6)
+    S.items["compile.noisy_circuit.alternating_backends"].bound = S.items["compile.noisy_circuit.alternating_backends"].bound.replace("{N}", str(Na))
+    S.map("compile.noisy_circuit.alternating_backends", [{"prog": p} for p in alt], nontrivial=nt)
+    S.items["assign_noise.twice.frame"].bound = S.items["assign_noise.twice.frame"].bound.replace("{N}", str(N))
+    S.map("assign_noise.twice.frame", [b for i, b in enumerate(two) if i % 6 == 0 or len(b["prog"]["ops"]) > 2], nontrivial=nt)
+    Nc = 400 if th else 80
+    cin = []
+    for i, p in enumerate(random_programs(seed + 1313, Nc, max_qubits=4, max_len=20)):
+        ext = random_program_on(rrng, p["ne"], p["np"], 3, nc=p["nc"], p_measure=0.2)["ops"]
+        cin.append({"prog": p, "ext": ext, "pick": int(rrng.integers(0, 1000))})
+    S.items["copy.independent_of_later_edits"].bound = S.items["copy.independent_of_later_edits"].bound.replace("{N}", str(Nc))
+    S.map("copy.independent_of_later_edits", cin, nontrivial=nt)
 
     Nm = 40 if th else 8
     mp = random_programs(seed + 1303, 2 * Nm * 4, max_qubits=4, max_len=20, min_photons=1, min_emitters=1)
